@@ -67,7 +67,39 @@ func c13Oracle(in c13In) probe.Outcome {
 	var got []model.Payload
 	var hdr *model.Header
 	var derr error
-	if in.Via == "sk" {
+	if in.Via == "outer-sk" {
+		// the host message travels protected; the unsupported payloads sit in the OUTER chain in front of the SK payload
+		first, body, err := ref.EncodeChain(in.Host.Payloads, nil)
+		if err != nil {
+			return probe.Fail("HARNESS: reference encoder: %v", err)
+		}
+		if len(body) > 60000 {
+			return probe.OK(false, "too-big-for-sk")
+		}
+		var front []ref.RawPayload
+		for _, ins := range in.Inserts {
+			fl := byte(0)
+			if ins.Raw.Critical {
+				fl = 0x80
+			}
+			front = append(front, ref.RawPayload{Type: ins.Raw.Type, Flags: fl, Body: ins.Raw.Body})
+		}
+		suite := bridge.SuiteSel{Encr: 2, Integ: 2}
+		keys := fuzzKeysFor(suite)
+		h := in.Host.Header
+		pl := 15 - len(body)%16
+		w, err := ref.ProtectOuter(suite.Ref(), keys.Dir(false), ref.Header28(h.ISPI, h.RSPI, h.Major, h.Minor, h.Exchange, h.Flags, h.MsgID), front, first, body, make([]byte, 16), pl, make([]byte, pl))
+		if err != nil {
+			return probe.Fail("HARNESS: reference SK builder: %v", err)
+		}
+		sa, err := bridge.NewSA(suite, *keys)
+		if err != nil {
+			return probe.Fail("HARNESS: %v", err)
+		}
+		var gm model.Message
+		gm, derr = libUnprotect(w, sa, true, len(in.Lib)%2 == 1)
+		got, hdr = gm.Payloads, &gm.Header
+	} else if in.Via == "sk" {
 		// the chain travels inside an Encrypted payload built by the reference (fixed keys, AES-128 + SHA1-96)
 		first, body, err := ref.EncodeChain(comb.Payloads, e)
 		if err != nil {
@@ -157,7 +189,7 @@ var c13Random = probe.Define("C13", "insert",
 			in.Lib = rapid.SliceOfN(rapid.Byte(), 1, 40).Draw(t, "lib")
 		}
 		in.Critical = rapid.Bool().Draw(t, "critsupported")
-		in.Via = rapid.SampledFrom([]string{"message", "message", "container", "sk"}).Draw(t, "via")
+		in.Via = rapid.SampledFrom([]string{"message", "message", "container", "sk", "outer-sk"}).Draw(t, "via")
 		return in
 	}, c13Oracle)
 
@@ -209,7 +241,7 @@ func TestC13(t *testing.T) {
 			}
 			for pos := range positions {
 				for _, crit := range []bool{false, true} {
-					for _, via := range []string{"message", "container", "sk"} {
+					for _, via := range []string{"message", "container", "sk", "outer-sk"} {
 						in := c13In{Host: host, Via: via, Inserts: []c13Insert{{Pos: pos, Raw: model.Raw{Type: uint8(ty), Critical: crit, Body: model.Bytes{0xde, 0xad, byte(ty)}}}}}
 						if !c13Table.Eval(c, in) && c.Failures() > 3 {
 							goto done
